@@ -101,9 +101,11 @@ def run(ctx):
                 branches[i] += v
     evals = int(meta.get("modifier_cases", 0)) + int(meta.get("e2e_cases", 0))
     nontriv = branches[1] + branches[2] + int(meta.get("e2e_cases", 0))
+    ob_names, ob_done = u.table_obligations("Ob18.v", info)
     coverage = {
-        "obligations": len(info["theorems"]),
-        "discharged": len(info["discharged"]),
+        "obligations": len(info["theorems"]) + len(ob_names),
+        "discharged": len(info["discharged"]) + len(ob_done),
+        "table_obligations": ob_names,
         "checker_cmd": "make -j16 (coq_makefile, full .vo) in coq/lib and coq/g01; coqc C18.v; coqc on %d cases shards (vm_compute)"
                        % len(meta.get("shards", [])),
         "trusted_base": common.standard_trusted_base([
